@@ -167,6 +167,18 @@ Lemma layouts_documented :
   N_XSTATE_FEATURE = DN_XSTATE_FEATURE /\
   L_XSTATE_CONFIG_FEATURE_MSC_INFO = D_XSTATE_CONFIG_FEATURE_MSC_INFO /\
   N_XSTATE_CONFIG_FEATURE_MSC_INFO = DN_XSTATE_CONFIG_FEATURE_MSC_INFO /\
+  L_FLOATING_SAVE_AREA_X86 = D_FLOATING_SAVE_AREA_X86 /\
+  N_FLOATING_SAVE_AREA_X86 = DN_FLOATING_SAVE_AREA_X86 /\
+  L_CONTEXT_X86 = D_CONTEXT_X86 /\
+  N_CONTEXT_X86 = DN_CONTEXT_X86 /\
+  L_CONTEXT_AMD64 = D_CONTEXT_AMD64 /\
+  N_CONTEXT_AMD64 = DN_CONTEXT_AMD64 /\
+  L_FLOATING_SAVE_AREA_ARM = D_FLOATING_SAVE_AREA_ARM /\
+  N_FLOATING_SAVE_AREA_ARM = DN_FLOATING_SAVE_AREA_ARM /\
+  L_CONTEXT_ARM = D_CONTEXT_ARM /\
+  N_CONTEXT_ARM = DN_CONTEXT_ARM /\
+  L_CONTEXT_ARM64 = D_CONTEXT_ARM64 /\
+  N_CONTEXT_ARM64 = DN_CONTEXT_ARM64 /\
   L_CV_INFO_PDB20 = D_CV_INFO_PDB20 /\
   N_CV_INFO_PDB20 = DN_CV_INFO_PDB20 /\
   L_CV_INFO_PDB70 = D_CV_INFO_PDB70 /\
@@ -198,6 +210,17 @@ Lemma layouts_documented :
   ST_MiscInfoStream = DOC_ST_MiscInfoStream /\
   ST_MemoryInfoListStream = DOC_ST_MemoryInfoListStream /\
   ST_ThreadNamesStream = DOC_ST_ThreadNamesStream /\
+  CF_CONTEXT_X86 = DOC_CF_CONTEXT_X86 /\
+  CF_CONTEXT_AMD64 = DOC_CF_CONTEXT_AMD64 /\
+  CF_CONTEXT_ARM = DOC_CF_CONTEXT_ARM /\
+  CF_CONTEXT_ARM64 = DOC_CF_CONTEXT_ARM64 /\
+  CF_ALL_BITS = DOC_CF_ALL_BITS /\
+  CONTEXT_CPU_MASK = DOC_CONTEXT_CPU_MASK /\
+  PROCESSOR_ARCHITECTURE_INTEL = DOC_PROCESSOR_ARCHITECTURE_INTEL /\
+  PROCESSOR_ARCHITECTURE_ARM = DOC_PROCESSOR_ARCHITECTURE_ARM /\
+  PROCESSOR_ARCHITECTURE_AMD64 = DOC_PROCESSOR_ARCHITECTURE_AMD64 /\
+  PROCESSOR_ARCHITECTURE_IA32_ON_WIN64 = DOC_PROCESSOR_ARCHITECTURE_IA32_ON_WIN64 /\
+  PROCESSOR_ARCHITECTURE_ARM64 = DOC_PROCESSOR_ARCHITECTURE_ARM64 /\
   CV_SIG_Pdb20 = DOC_CV_SIG_Pdb20 /\
   CV_SIG_Pdb70 = DOC_CV_SIG_Pdb70 /\
   CV_SIG_Elf = DOC_CV_SIG_Elf /\
